@@ -166,7 +166,16 @@ func c02Boundary(c *cluster, final bool) {
 		}
 		views = append(views, v)
 		if h.verbose {
-			h.s.Logf("view %s: leading=%v epoch=%d hw=%d newest=%d entries=%d isr=%v", n.id, v.leading, v.epoch, hw, newest, len(log), p.Isr)
+			var offs []int64
+			for o := range log {
+				offs = append(offs, o)
+			}
+			sort.Slice(offs, func(i, j int) bool { return offs[i] < offs[j] })
+			txt := ""
+			for _, o := range offs {
+				txt += fmt.Sprintf(" %d:%s", o, trunc([]byte(log[o]), 4))
+			}
+			h.s.Logf("view %s: leading=%v epoch=%d hw=%d newest=%d entries=%d isr=%v log=%s", n.id, v.leading, v.epoch, hw, newest, len(log), p.Isr, txt)
 		}
 	}
 	// A follower that cannot reach its leader when it starts following falls back to truncating its log
